@@ -746,6 +746,9 @@ func (s *Server) handleResponse(response *agent.Response) error {
 			}
 		}
 	case *agent.Response_End:
+		if s.begin == nil {
+			return errors.New("received end batch message without a begin batch message")
+		}
 		begin := edge.NewBeginBatchMessage(
 			msg.End.Name,
 			msg.End.Tags,
